@@ -217,10 +217,18 @@ func runCheck(repo, root, prop, tier string, seed int) *CheckResult {
 			continue
 		}
 		relevant := funcHasProp(fc, prop) || (isSafetyProp && hasProp(v.safetyPropsFor(fn), prop))
+		// extra_functions (scope file): functions the property rests on as a whole — all their obligations (frames,
+		// invariants, supporting postconditions) are decided by this property's check too. Entries are names or regexps.
+		isExtra := false
 		for _, x := range meta.ExtraFuncs {
 			if x == name {
-				relevant = true
+				isExtra = true
+			} else if re, err := regexp.Compile("^(?:" + x + ")$"); err == nil && re.MatchString(name) {
+				isExtra = true
 			}
+		}
+		if isExtra && fc != nil {
+			relevant = true
 		}
 		if !relevant {
 			continue
@@ -235,7 +243,7 @@ func runCheck(repo, root, prop, tier string, seed int) *CheckResult {
 		for u := range e.uncontracted {
 			uncon[u] = true
 		}
-		hasP := funcHasProp(fc, prop)
+		hasP := funcHasProp(fc, prop) || (isExtra && fc != nil)
 		if hasP || isSafetyProp {
 			covers = append(covers, e.covers...)
 		}
@@ -255,6 +263,16 @@ func runCheck(repo, root, prop, tier string, seed int) *CheckResult {
 				case "ensures", "proves":
 					take = len(o.Props) == 0
 				}
+			}
+			if !take && isExtra && fc != nil {
+				// a function the property rests on as a whole: everything but the pure safety obligations of the sweeps
+				onlySafety := len(o.Props) > 0
+				for _, pp := range o.Props {
+					if pp != "C13" && pp != "C19" {
+						onlySafety = false
+					}
+				}
+				take = !onlySafety
 			}
 			if !take && isSafetyProp && hasProp(e.safetyProps, prop) {
 				take = true
